@@ -2,6 +2,7 @@ package props
 
 import (
 	"fmt"
+	"math"
 	"reflect"
 	"sort"
 	"strings"
@@ -529,7 +530,11 @@ func TestC19Store(t *testing.T) {
 						fail("collection type has fields %q / %q, want %q / %q", gen.SortedKeys(ct.Attrs), gen.SortedKeys(ct.Rels), gen.SortedKeys(model.attrs), gen.SortedKeys(model.rels))
 					}
 
-					for _, i := range []int{-1, -5, len(model.items), len(model.items) + 3} {
+					for _, i := range []int{-1, -5, len(model.items), len(model.items) + 3, 1 << 32, 1<<32 + 1, -(1 << 32), 1<<62 + 1, 1 << 16, 1<<8 + 1, math.MinInt64, math.MinInt64 + 1, math.MaxInt64} {
+						if i >= 0 && i < len(model.items) {
+							continue
+						}
+
 						// "returns nil": the interface value itself, so that callers can write At(i) == nil
 						if got := col.At(i); got != nil {
 							fail("At(%d) is not nil for a collection of %d (it is a %T)", i, len(model.items), got)
